@@ -375,6 +375,14 @@ DCD_REACH = {"zzH_dcdWriteBlock": ["end", "block-ok"]}
 
 def spec_C06(tier):
     jobs, bounds = dcd_jobs(tier, ["dcdWriteByte", "dcdWrite", "dcdFlush", "dcdWriteBlock"], (0, 1))
+    # DecoderBuffer calls (doubling copy loops) under the same work bound
+    j2, b2 = dec_jobs(tier, ["decWriteMatch", "decWriteBlock", "decWrite", "decRead", "decWriteTo"])
+    for j in j2:
+        if j["entry"] == "zzH_decWriteBlock" and j["params"].get("NS") == 2:
+            continue
+        j.update(nonterm=True, max_steps=400000, loop_cap=200)
+        jobs.append(j)
+    bounds["DecoderBuffer level"] = b2
     return {"jobs": jobs, "bounds": bounds, "assumptions": DEC_ASSUME + ["the writer returns (it is a stub); non-termination = more than 48 writer calls, or more than 200 visits of one loop head "
             "/ 400000 SSA steps inside one Decoder call (legitimate calls within the bounds need < 20 writer calls)"], "outside": DEC_OUTSIDE,
             "explanation": "termination of every Decoder call for every argument size relative to BufferSize-WindowSize and BufferSize, valid or not, with and without writer faults: "
@@ -708,9 +716,14 @@ def cfg_jobs(tier, entries):
     jobs = []
     for e in entries:
         for t, name in enumerate(CFG_TYPES):
-            jobs.append(J("%s-%s" % (e, name), "zzH_" + e, params={"type": t, "hbMax": hb}))
+            h = hb
+            if tier != "quick" and name in ("HP", "BHP", "BUP"):
+                h = 24  # every accepted HashBits incl. the maximum (tables are sparse objects, contents stay zero)
+            if tier != "quick" and name in ("DHP", "BDHP"):
+                h = 4
+            jobs.append(J("%s-%s" % (e, name), "zzH_" + e, params={"type": t, "hbMax": h}))
     return jobs, {"configuration fields": "every integer field over all of int64; OSAP Cost in {\"\", \"XZCost\", another string}",
-                  "NewParser": "HashBits <= %d and BucketSize <= 4 where tables are allocated (negative values included); all seven types" % hb}
+                  "NewParser": "HashBits <= %s and BucketSize <= 4 where tables are allocated (negative values included); all seven types" % ("2" if tier == "quick" else "24 (HP, BHP, BUP) / 4 (DHP, BDHP)")}
 
 
 def spec_C20(tier):
